@@ -122,6 +122,14 @@ func collectTemplates(c *core.Ctx, r *core.Report) []viewTemplate {
 		}
 		for _, ret := range an.Returns(fn) {
 			lit := an.StructLiteralOf(ret.Results[0])
+			var litF *an.Frame
+			if lit == nil {
+				// the context is built by a (generic) helper that is handed the view and the data
+				rv := an.RootFV(fn, ret.Results[0]).Resolve(nil)
+				if al, isAl := rv.V.(*ssa.Alloc); isAl && rv.F != nil && rv.F.Parent != nil {
+					lit, litF = al, rv.F
+				}
+			}
 			if lit == nil {
 				continue
 			}
@@ -129,6 +137,10 @@ func collectTemplates(c *core.Ctx, r *core.Report) []viewTemplate {
 			vw, dt := lf["view"], lf["data"]
 			if vw == nil || dt == nil {
 				continue
+			}
+			if litF != nil {
+				vw = an.FV{V: vw, F: litF}.Resolve(nil).V
+				dt = an.FV{V: dt, F: litF}.Resolve(nil).V
 			}
 			vf, _ := an.TerminalField(vw)
 			if vf == nil {
